@@ -776,7 +776,13 @@ pub fn judge(case: &VmCase, rep: &mut Report, mon: &Monitor, pools: &mut Pools, 
                     issues.push((
                         // an out-of-gas error at another op means the gas accounting deviates;
                         // otherwise the VM went somewhere else after its last executed op
-                        if e.oog || *f == Fail::OutOfGas { "C07" } else { flow_property(&real.lock) },
+                        if real.lock.as_ref().is_some_and(|l| l.stopped.is_none() && l.m.pc != e.index) {
+                            flow_property(&real.lock)
+                        } else if e.oog || *f == Fail::OutOfGas {
+                            "C07"
+                        } else {
+                            flow_property(&real.lock)
+                        },
                         "error-index",
                         format!("error reported at op {} but the failing op is {} ({})", e.index, m.pc, e.text),
                     ));
